@@ -338,7 +338,7 @@ impl<'a> Gen<'a> {
                 let err = if self.rng.chance(1, 3) { Ty::Unit } else {
                     loop {
                         let e = self.valid_out(true);
-                        if !(self.avoid.noncustom_result_err && matches!(e, Ty::Prim(_) | Ty::Str(..) | Ty::PSlice(..))) { break e; }
+                        if !(self.avoid.noncustom_result_err && (matches!(e, Ty::Prim(_) | Ty::Str(..) | Ty::PSlice(..)) || matches!(&e, Ty::Opt(i, _) if !matches!(**i, Ty::Box(_) | Ty::Ref(..))))) { break e; }
                     }
                 };
                 let sd = self.sd();
